@@ -40,7 +40,7 @@ def plan(tier, seed):
     if tier == "quick":
         per_backend, stores, singles, multis = 8, 4, 150, 50
     else:
-        per_backend, stores, singles, multis = 32, 6, 250, 80
+        per_backend, stores, singles, multis = 64, 8, 250, 80
     for backend in ("sql", "lmdb"):
         for i in range(per_backend):
             shards.append(
